@@ -130,7 +130,7 @@ Definition cfg_fs_on : config :=
 Lemma lowering_caps_keeps_natives :
   caps_fs default_config = false /\
   In ("fs", "write_text") (reachable_session [(cfg_fs_on, [LStd "fs"]); (default_config, [])]).
-Proof. split; [reflexivity|]. apply nmem_In. vm_compute. reflexivity. Qed.
+Proof. split; [reflexivity|]. refine (proj1 (nmem_In _ _) _). vm_compute. reflexivity. Qed.
 
 (* ---------------------------------------------------------------- exec *)
 Lemma spawners_guarded : forallb (fun n => nmem n exec_guarded) spawning_natives = true.
@@ -164,13 +164,13 @@ Qed.
 
 (* ---------------------------------------------------------------- FNV-1a: file = bytes *)
 Lemma fold_left_concat {A B} (f : A -> B -> A) (ls : list (list B)) (a : A) :
-  fold_left (fun h l => fold_left f l h) ls a = fold_left f (concat ls) a.
+  fold_left (fun h l => fold_left f l h) ls a = fold_left f (List.concat ls) a.
 Proof.
-  revert a; induction ls as [|l ls IH]; intro a; cbn [fold_left concat]; [reflexivity|].
+  revert a; induction ls as [|l ls IH]; intro a; cbn [fold_left List.concat]; [reflexivity|].
   rewrite fold_left_app. apply IH.
 Qed.
 
-Lemma fnv_file_eq_fnv_bytes_lemma (chunks : list (list N)) : fnv_file chunks = fnv_bytes (concat chunks).
+Lemma fnv_file_eq_fnv_bytes_lemma (chunks : list (list N)) : fnv_file chunks = fnv_bytes (List.concat chunks).
 Proof.
   unfold fnv_file, fnv_bytes.
   change fnv_prime_file with fnv_prime_bytes. change fnv_offset_file with fnv_offset_bytes.
@@ -195,16 +195,17 @@ Section Decisions.
   Qed.
 
   Lemma checksum_mismatch_refuses_lemma (c : config) (p : policy) (f : nfile) (expected : N) :
-    p_checksum p = Some expected -> fnv_bytes (concat (f_chunks f)) <> expected ->
+    p_checksum p = Some expected -> fnv_bytes (List.concat (f_chunks f)) <> expected ->
     has_event ELoaded (decision c (Some p) f) = false /\ has_event ERegistered (decision c (Some p) f) = false
     /\ has_event EInit (decision c (Some p) f) = false.
   Proof.
     intros Hc Hne. unfold native_module_decision. rewrite Hc.
-    destruct (match p_caps p with [] => None | _ :: _ => check_native_capabilities c (p_caps p) end) as [bad|];
-      [repeat split; reflexivity|].
-    rewrite fnv_file_eq_fnv_bytes_lemma.
-    destruct (N.eqb_spec (fnv_bytes (concat (f_chunks f))) expected) as [E|_]; [contradiction|].
-    repeat split; reflexivity.
+    assert (K : forall r : list event, (if (fnv_file (f_chunks f) =? expected)%N then r else [ERefusedChecksum]) = [ERefusedChecksum]).
+    { intro r. rewrite fnv_file_eq_fnv_bytes_lemma.
+      destruct (N.eqb_spec (fnv_bytes (List.concat (f_chunks f))) expected) as [E|_]; [contradiction|reflexivity]. }
+    destruct (p_caps p) as [|x xs]; [rewrite K; repeat split; reflexivity|].
+    destruct (check_native_capabilities c (x :: xs)) as [bad|]; [repeat split; reflexivity|].
+    rewrite K; repeat split; reflexivity.
   Qed.
 
   Definition version_ok (p : policy) (f : nfile) : bool :=
@@ -220,9 +221,13 @@ Section Decisions.
   Proof.
     intro Hv. unfold version_ok in Hv. unfold native_module_decision.
     destruct (p_version p) as [rq|]; [|discriminate Hv]. rewrite Hv.
-    destruct (match p_caps p with [] => None | _ :: _ => check_native_capabilities c (p_caps p) end) as [bad|];
-      [split; reflexivity|].
-    destruct (p_checksum p) as [e|]; [destruct (N.eqb _ e)|]; split; reflexivity.
+    assert (K : forall e : N, has_event ERegistered (if (fnv_file (f_chunks f) =? e)%N then [ELoaded; ERefusedVersion] else [ERefusedChecksum]) = false
+                              /\ has_event EInit (if (fnv_file (f_chunks f) =? e)%N then [ELoaded; ERefusedVersion] else [ERefusedChecksum]) = false).
+    { intro e. destruct (fnv_file (f_chunks f) =? e)%N; split; reflexivity. }
+    destruct (p_caps p) as [|x xs].
+    - destruct (p_checksum p) as [e|]; [apply K|split; reflexivity].
+    - destruct (check_native_capabilities c (x :: xs)) as [bad|]; [split; reflexivity|].
+      destruct (p_checksum p) as [e|]; [apply K|split; reflexivity].
   Qed.
 
   (* ... but it is loaded first, whenever the capability and checksum checks pass *)
@@ -280,11 +285,11 @@ Definition spelling_caps (a b x : bool) : list string :=
   (if x then ["--allow-caps=exec"] else ["--deny-caps=exec"]).
 Definition spelling_list (a b x : bool) : list string :=
   let on := (if a then ["fs"] else []) ++ (if b then ["net"] else []) ++ (if x then ["exec"] else []) in
-  match on with [] => [] | _ => ["--allow-caps=" ++ String.concat "," on] end.
+  match on with [] => [] | _ => [("--allow-caps=" ++ String.concat "," on)%string] end.
 Definition spelling_dash (a b x : bool) : list string :=
-  ["--ae-allow-fs=" ++ bstr a; "--ae-allow-net=" ++ bstr b; "--ae-allow-exec=" ++ bstr x].
+  [("--ae-allow-fs=" ++ bstr a)%string; ("--ae-allow-net=" ++ bstr b)%string; ("--ae-allow-exec=" ++ bstr x)%string].
 Definition spelling_dot (a b x : bool) : list string :=
-  ["-ae.allow-fs=" ++ bstr a; "-ae.allow-net=" ++ bstr b; "-ae.allow-exec=" ++ bstr x].
+  [("-ae.allow-fs=" ++ bstr a)%string; ("-ae.allow-net=" ++ bstr b)%string; ("-ae.allow-exec=" ++ bstr x)%string].
 
 Lemma flag_spellings_agree_lemma (a b x : bool) :
   caps_of (parse_args (spelling_caps a b x)) = Some (a, b, x) /\
@@ -338,7 +343,7 @@ Definition nv_requests : list load_request :=
   [LStd "sys"; LStd "fs"; LNames ["fs::write_text"; "net::connect"; "bytes::alloc"]; LStd "net"; LStd "bytes"].
 Lemma nonvacuous :
   caps_fs default_config = false /\ caps_net default_config = false /\
-  List.length (reachable_natives default_config nv_requests) = 216 /\
+  List.length (reachable_natives default_config nv_requests) = 209 /\
   forallb (fun n => negb (String.eqb (fst n) "fs") && negb (String.eqb (fst n) "net")) (reachable_natives default_config nv_requests) = true /\
   nmem ("sys", "exec") (reachable_natives default_config nv_requests) = true /\
   exec_guard default_config ("sys", "exec") = DeniedE.
